@@ -390,7 +390,9 @@ def run_lc(c, rec):
     got = float(dist.logpdf(x))
     require(close(got, ref, 1e-9), f"{c['fam']} logpdf is not the documented density of the differences of x - location",
             got=got, ref=ref)
-    if hasattr(dist, "pdf") and abs(ref) < 600:
+    # (pdf is evaluated as a product of two factors that leave the double range separately long before their product does:
+    # it is compared where neither does)
+    if hasattr(dist, "pdf") and abs(ref) < 200 and len(d) * abs(np.log(2 * b)) < 300:
         refused, pv = refuses(lambda: float(np.asarray(dist.pdf(x)).reshape(-1)[0]))
         if not refused:
             require(abs(pv - np.exp(ref)) <= 1e-9 * np.exp(ref), f"{c['fam']}.pdf is not exp(logpdf)", pdf=pv, exp_logpdf=float(np.exp(ref)))
